@@ -485,6 +485,21 @@ macro_rules! conv_leaves {
         }
     };
 }
+/// A zero-sized value with a destructor.
+#[derive(Debug)]
+pub struct Zst;
+impl Drop for Zst {
+    fn drop(&mut self) {
+        world::zst_dropped();
+    }
+}
+fn zst(v: Val) -> Zst {
+    let id = v.id;
+    std::mem::forget(v);
+    world::mark_zst(id);
+    Zst
+}
+conv_leaves!(ZstF, ZstR, ZstS, Zst, zst);
 conv_leaves!(NzF, NzR, NzS, Nz, nz);
 conv_leaves!(WideF, WideR, WideS, Wide, wide);
 
